@@ -20,7 +20,7 @@ import (
 
 func (ni *nodeInc) main() {
 	run := ni.run
-	defer func() { ni.exited = true }()
+	defer func() { ni.exited = true; close(ni.gone) }()
 	if err := SetIdentity(ni.dir, ni.node.cid, ni.node.id); err != nil {
 		ni.newErr = err
 		run.led.onStartFailed(ni, "SetIdentity", err)
@@ -174,6 +174,10 @@ func (cl *client) do(ni *nodeInc, kind opKind) *opRec {
 		op.Return = run.sim.Steps
 		op.Outcome = outNotSubmitted
 		return op
+	case <-ni.gone: // Serve has returned (possibly with an error, without closing): nobody takes tasks any more
+		op.Return = run.sim.Steps
+		op.Outcome = outNotSubmitted
+		return op
 	case ni.r.FSMTasks() <- task:
 	}
 	op.submitted = true
@@ -212,6 +216,8 @@ func (a *admin) submit(ni *nodeInc, t Task, kind string, patience time.Duration)
 	run := a.run
 	select {
 	case <-ni.r.Closed():
+		return false
+	case <-ni.gone:
 		return false
 	case ni.r.Tasks() <- t:
 	}
